@@ -14,8 +14,8 @@ from ..common import Snap
 from ..tlc import TLCError
 
 # violation keys of behaviour modelled beyond the statement of the property (reported, never an alarm)
-BEYOND = ("circuit:",)
-INV = ["SparseIsDefinition", "HermConjIsAdjoint", "IsHermitianIffMatrixIs", "MatrixPauliRoundTrip", "ReverseIsBitReversal", "ExpectationIsQuadraticForm", "TermCircuitIsString", "MatrixOfOperatorRoundTrip"]
+BEYOND = ("circuit:", "fromlabels:", "evaluate:")
+INV = ["SparseIsDefinition", "HermConjIsAdjoint", "IsHermitianIffMatrixIs", "MatrixPauliRoundTrip", "ReverseIsBitReversal", "ExpectationIsQuadraticForm", "TermCircuitIsString", "MatrixOfOperatorRoundTrip", "FromLabelsDenotes", "EvaluateIsExpectation"]
 
 
 def state_k(k, nq):
@@ -47,7 +47,7 @@ def check_case(ctx, c, nq):
     op = c["op"]
     style = (len(c["x"]["ts"]) + c["k"]) % 3
     x = pc.operand_real(c["x"], style)
-    desc = "%s(%s%s)" % (op, pc.show(c["x"]), ", %d" % c["k"] if op in ("sparse", "reverse", "expect", "frommatrix") else "")
+    desc = "%s(%s%s)" % (op, pc.show(c["x"]), ", %d" % c["k"] if op in ("sparse", "reverse", "expect", "frommatrix", "evaluate") else "")
     snap = Snap([x])
     try:
         if op == "circuit":
@@ -65,6 +65,38 @@ def check_case(ctx, c, nq):
                     out.append(("circuit:matrix", "%s: the term's circuit does not act as its Pauli string" % desc))
             if term.circuit is not circ or [str(o) for o in term.circuit.operations] != [str(o) for o in circ.operations]:
                 out.append(("circuit:unstable", "%s: asking for the circuit twice gives different circuits" % desc))
+        elif op == "fromlabels":
+            from orquestra.quantum.operators._utils import get_pauliop_from_coeffs_and_labels
+
+            code = {"I": 0, "X": 1, "Y": 2, "Z": 3}
+            coeffs = [pc.pycoef(t["c"], style + i) for i, t in enumerate(c["x"]["ts"])]
+            labels = [[code[o] for o in t["ops"]] for t in c["x"]["ts"]]
+            r = get_pauliop_from_coeffs_and_labels(coeffs, labels)
+            if not pc.canon_close(pc.canon_real(r), pc.canon_abstract(c["res"])):
+                out.append(("fromlabels:value", "get_pauliop_from_coeffs_and_labels(%s, %s) = %r, specification %s" % (coeffs, labels, r, pc.show(c["res"]))))
+            elif len(set(frozenset(t._ops.items()) for t in r.terms)) != len(r.terms):
+                out.append(("fromlabels:simplified", "get_pauliop_from_coeffs_and_labels(%s, %s) = %r keeps like terms apart" % (coeffs, labels, r)))
+        elif op == "evaluate":
+            from orquestra.quantum.measurements import ExpectationValues
+            from orquestra.quantum.operators import PauliTerm
+            from orquestra.quantum.operators._utils import evaluate_operator, evaluate_operator_list
+
+            st = state_k(c["k"], nq)
+            vals = [complex(get_expectation_value(PauliTerm(dict(t._ops), 1.0), Wavefunction(st))) for t in x.terms]
+            want_vals = [ring(v) for v in c["m"][0]]
+            if any(abs(a - b) > 1e-9 for a, b in zip(vals, want_vals)):
+                out.append(("evaluate:term-values", "%s: exact expectation values of the terms %s, specification %s" % (desc, vals, want_vals)))
+            else:
+                want = ring(c["res"]["ts"][0]["c"]).real
+                ev_ = ExpectationValues(np.array([v.real for v in vals]))
+                got = evaluate_operator(x, ev_)
+                half = max(1, len(x.terms) // 2)
+                from orquestra.quantum.operators import PauliSum
+
+                parts = [PauliSum(list(x.terms[:half])), PauliSum(list(x.terms[half:]))] if pc.kind_of(x) == "sum" else [x]
+                got_list = evaluate_operator_list(parts, ev_)
+                if abs(float(got) - want) > 1e-9 or abs(float(got_list) - want) > 1e-9:
+                    out.append(("evaluate:value", "%s: evaluate_operator = %s, evaluate_operator_list (two parts) = %s, Re <psi|op|psi> = %s" % (desc, float(got), float(got_list), want)))
         elif op == "sparse":
             n = c["k"]
             got = get_sparse_operator(x, n).toarray()
@@ -143,7 +175,7 @@ def check_case(ctx, c, nq):
                 out.append(("frommatrix:roundtrip", "%s converted back does not reproduce the matrix unit" % desc))
             return out
     except Exception as ex:
-        return out + [("raised:" + op, "%s raised %s: %s" % (desc, type(ex).__name__, str(ex)[:200]))]
+        return out + [((op + ":raised") if op in ("circuit", "fromlabels", "evaluate") else ("raised:" + op), "%s raised %s: %s" % (desc, type(ex).__name__, str(ex)[:200]))]
     if snap.changed():
         out.append(("mutated:" + op, "%s modified its argument" % desc))
     return out
@@ -151,11 +183,11 @@ def check_case(ctx, c, nq):
 
 def run(ctx):
     quick = ctx.tier == "quick"
-    allops = '{"conj","isherm","sparse","reverse","expect","circuit","matrixof"}'
+    allops = '{"conj","isherm","sparse","reverse","expect","circuit","matrixof","fromlabels","evaluate"}'
     runs = [
         ("ops2", dict(NQ=2, Pool="<-PoolC09_2", Ops=allops, Depth=2, ExpandMod=1, Emitting=True)),
         ("frommatrix2", dict(NQ=2, Pool="{S(<<>>)}", Ops='{"frommatrix"}', Depth=2, ExpandMod=1, Emitting=True)),
-        ("ops3", dict(NQ=3, Pool="<-PoolC09_3", Ops='{"conj","isherm","reverse","expect","circuit","matrixof"}' if quick else allops, Depth=2, ExpandMod=1, Emitting=True)),
+        ("ops3", dict(NQ=3, Pool="<-PoolC09_3", Ops='{"conj","isherm","reverse","expect","circuit","matrixof","fromlabels"}' if quick else allops, Depth=2, ExpandMod=1, Emitting=True)),
     ]
     if not quick:
         runs.append(("frommatrix3", dict(NQ=3, Pool="{S(<<>>)}", Ops='{"frommatrix"}', Depth=2, ExpandMod=1, Emitting=True)))
